@@ -11,7 +11,9 @@
 EXTENDS DebDependency
 
 \* alternative = [name, restr]  restr \in {"none", "only-target", "only-other", "not-target", "not-other", "not-target2", "substvar"}
-Admits(restr) == restr \in {"none", "only-target", "not-other"}
+\*   "q-native" / "q-any" / "q-target": the name carries a multiarch qualifier (pkg:native, pkg:any, pkg:amd64) - it still names
+\*   that binary;  "versioned": a version constraint follows the name
+Admits(restr) == restr \in {"none", "only-target", "not-other", "q-native", "q-any", "q-target", "versioned"}
 Selected(rel) == LET ok == {k \in 1..Len(rel) : rel[k].restr # "substvar" /\ Admits(rel[k].restr)} IN
                  IF ok = {} THEN <<>> ELSE <<rel[CHOOSE k \in ok : \A j \in ok : k <= j].name>>
 \* source = [name, binaries, fields]  fields = <<bd, bda, bdi>> each a sequence of relations
@@ -49,6 +51,10 @@ TargetArch == <<97, 109, 100, 54, 52>>   OtherArch == <<105, 51, 56, 54>>
 RenderAlt(a) ==
     CASE a.restr = "substvar"    -> <<DOLLAR, LBRACE>> \o a.name \o <<RBRACE>>
       [] a.restr = "none"        -> a.name
+      [] a.restr = "q-native"    -> a.name \o <<COLON, 110, 97, 116, 105, 118, 101>>
+      [] a.restr = "q-any"       -> a.name \o <<COLON, 97, 110, 121>>
+      [] a.restr = "q-target"    -> a.name \o <<COLON>> \o TargetArch
+      [] a.restr = "versioned"   -> a.name \o <<SP, LPAREN, GT, EQ, SP, 48, DOT, 53, RPAREN>>
       [] a.restr = "only-target" -> a.name \o <<SP, LBRACK>> \o TargetArch \o <<RBRACK>>
       [] a.restr = "only-other"  -> a.name \o <<SP, LBRACK>> \o OtherArch \o <<RBRACK>>
       [] a.restr = "not-target"  -> a.name \o <<SP, LBRACK, BANG>> \o TargetArch \o <<RBRACK>>
